@@ -333,6 +333,8 @@ def check_C18(tier, seed):
         L.append({"id": "h-large-%d" % i, "family": "history", "S": S, "opts": F.opts(rustfmt=True), "repeat": 1})
     for i, (name, text) in enumerate(repo_shaders()):
         L.append({"id": "h-repo-%d" % i, "family": "history", "wgsl": text, "opts": F.opts(bmv=True, enc=True, mv="glam"), "repeat": 2})
+    for i, d_ in enumerate([[(0, 0), (0, 1)], [(0, 1), (0, 0)], [(1, 0), (0, 0)], [(0, 0), (1, 0)]]):
+        L.append({"id": "h-anagram-%d" % i, "family": "history", "S": F.bgd_shader([{"g": g, "b": b} for g, b in d_], use=True), "opts": F.opts(), "repeat": 1})
     # (i) in one process, with repeats
     evA = run_vdriver_raw("gen", L, "C18_A", extra=["--no-project", "--no-s"])
     # (ii) another process: reversed order (different history of previous calls), other cwd, scrubbed environment
@@ -603,7 +605,9 @@ def check_C01(tier, seed):
         if rng.random() < 0.4:
             S["overrides"] = [{"name": "scale", "ty": "f32", "default": "1.0"}, {"name": "count", "ty": "u32", "id": 3}, {"name": "on", "ty": "bool"}][:rng.randint(1, 3)]
         if rng.random() < 0.4:
-            S["consts"] = F.const_table(rng)[:rng.randint(3, 30)]
+            table = F.const_table(rng)
+            lits = [c for c in table if not c.get("nonscalar") and not any(ch == "K" for ch in c["expr"])]
+            S["consts"] = S["consts"] + rng.sample(lits, rng.randint(3, 20)) + [c for c in table if c.get("nonscalar")]
         vecs = [o for o in ov if not (has_rt and (not o["enc"] or o["bmh"]))]
         for j, o in enumerate(rng.sample(vecs, min(len(vecs), 12 if quick else 24))):
             o = dict(o)
@@ -847,6 +851,8 @@ def sparse_group_cases(rng, n):
     cases = many_group_cases(rng, max(10, n // 6))
     for i in range(n):
         S = F.rand_shader(rng, n_fn=(0, 2), n_entry=(1, 3), n_res=(2, 9), depth=1, push=0.2, names=(i % 4 == 0))
+        if i % 5 == 1:
+            F.alias_resources(S)
         cases.append({"id": "bg-%05d" % i, "family": "bind-groups-random", "S": S, "opts": F.opts(enc=True, mv="glam")})
     return cases
 
@@ -870,6 +876,10 @@ def check_C04(tier, seed):
             g["space"] = "handle" if g["ty"]["k"] in ("tex", "sampler") else "uniform"
         S["entries"][0]["body"] = [{"k": "access", "g": g["name"], "how": "tex_dims" if g["ty"]["k"] == "tex" else "load"} for g in S["globals"] if g["ty"]["k"] != "sampler"]
         cases.append({"id": "seq-%05d" % i, "family": "bind-groups-exported", "S": S, "opts": F.opts()})
+    # pairs of sources that are permutations of each other (equal length, equal byte sum): binding numbers, group numbers or names exchanged
+    for i, (da, db) in enumerate([([(0, 0), (0, 1)], [(0, 1), (0, 0)]), ([(0, 2), (1, 0), (1, 1)], [(1, 2), (0, 0), (1, 1)]), ([(1, 0), (0, 0)], [(0, 0), (1, 0)]), ([(0, 3), (0, 1), (0, 2)], [(0, 1), (0, 2), (0, 3)])]):
+        for j, d_ in enumerate((da, db, da)):
+            cases.append({"id": "anagram-%d-%d" % (i, j), "family": "bind-groups-anagram-sources", "S": F.bgd_shader([{"g": g, "b": b} for g, b in d_], use=True), "opts": F.opts()})
     want = {"bindgroups"}
     compiled_and_judge(rep, "C04", cases, "exported", "shim", want, keep=["groups"])
     # operation sequences explored by TLC over the API state machine, replayed on the compiled module
